@@ -512,7 +512,7 @@ func runC05(cfg *vh.Config) error {
 	var fileCases []fileCaseRec
 	fileSeen := vh.Distinct{}
 	fileToks := map[string]int{}
-	maxFileToks := map[string]int{"repo-proto": cfg.Scale(16000, 400000), "compiled": cfg.Scale(18000, 600000), "hand-built": 100000}
+	maxFileToks := map[string]int{"repo-proto": cfg.Scale(24000, 400000), "compiled": cfg.Scale(30000, 600000), "hand-built": 100000}
 	addFile := func(stream string, fd protoreflect.FileDescriptor, out rtOut, fails []rtFailure, where string, input any) {
 		lost := false
 		for _, f := range fails {
@@ -827,7 +827,7 @@ func runC05(cfg *vh.Config) error {
 		Type:   "c05file",
 		Check:  "c05_file_check",
 	}
-	const perFile = 8
+	const perFile = 6
 	for i, c := range fileCases {
 		caseNo++
 		res.Count("file")
